@@ -761,6 +761,13 @@ class Sim:
         del self.trs[i]
 
 
+OPNAMES = {"new": ("op_new", ()), "set_values": ("op_set_values", ()),
+           "set_attr": ("op_set_one", ("set_attr",)),
+           "set_item": ("op_set_one", ("set_item",)),
+           "reset": ("op_reset", ()), "clone": ("op_clone", ()),
+           "dict_roundtrip": ("op_dict", ()), "reject": ("op_reject", ()),
+           "checkpoint": ("op_checkpoint", ()), "restore": ("op_restore", ())}
+
 OPS = [  # (kind, weight, needs)
     ("new", 8, None), ("set_values", 14, "v"), ("set_attr", 9, "v"),
     ("set_item", 9, "v"), ("reset", 5, "v"), ("clone", 7, "v"),
@@ -785,6 +792,13 @@ def run(cs, log, ctx):
         enabled["new"] = True
         log.ev("config", nsteps, maxv, maxt,
                sorted(k for k, v in enabled.items() if v))
+    strict = False
+    with cs.span("env"):
+        # process-wide numerical settings a container must not depend on:
+        # floating-point anomalies trapped, warnings turned into errors
+        strict = cs.flip("strict_fp", 25)
+        log.ev("env.strict_fp", strict)
+    sim.strict = strict
     with warnings.catch_warnings():
         warnings.simplefilter("ignore")
         for step in range(nsteps):
@@ -811,6 +825,17 @@ def run(cs, log, ctx):
                 kind = cs.weighted("op", avail)
                 log.kind(kind)
                 ctx.hit("steps")
+                vector_op = kind in ("new", "set_values", "set_attr",
+                                     "set_item", "reset", "clone",
+                                     "dict_roundtrip", "reject", "checkpoint",
+                                     "restore")
+                if strict and vector_op:
+                    ctx.hit("fault.fp_traps_and_warnings_as_errors")
+                    with np.errstate(all="raise"), warnings.catch_warnings():
+                        warnings.simplefilter("error")
+                        getattr(sim, OPNAMES[kind][0])(*OPNAMES[kind][1])
+                    sim.check_all(kind)
+                    continue
                 if kind == "new":
                     sim.op_new()
                 elif kind == "set_values":
